@@ -26,13 +26,6 @@ import (
 	"gocqlverif/hlib"
 )
 
-const (
-	findShadow = "shared-address-host-removed"
-	findStale  = "address-key-stale-after-update"
-	findDup    = "refresh-duplicate-host-id"
-	findNoAddr = "row-without-usable-address-panics"
-)
-
 type nullLogger struct{}
 
 func (nullLogger) Print(v ...interface{})                 {}
@@ -318,11 +311,6 @@ func scriptedRingHistories() [][]rop {
 	}
 }
 
-type ringMon struct {
-	shadow map[int64]bool // address keys whose entry was deleted while another host had the address
-	stale  map[int64]bool // address keys left behind / not entered because update moved a host's address
-}
-
 func keyOf(h *gocql.HostInfo) int64 {
 	k, _ := ipCode(gocql.VerifC16NodeToNode(h))
 	return k
@@ -396,46 +384,6 @@ func snap(rg *gocql.VerifC16Ring) snapshot {
 	return s
 }
 
-func (m *ringMon) observe(before, after snapshot) {
-	for id, h := range before.hosts {
-		h2, still := after.hosts[id]
-		if still && h2 == h {
-			// same object: did HostInfo.update move its address by filling in a nil broadcast address / peer?
-			// (the trigger of the stale-key finding; an address field that was set and changed is something else)
-			if after.keys[id] != before.keys[id] {
-				b, a := before.views[id], after.views[id]
-				filled := func(x, y net.IP) bool { return x.Equal(y) || x == nil }
-				if filled(b.Broadcast, a.Broadcast) && filled(b.Peer, a.Peer) {
-					m.stale[before.keys[id]] = true
-					m.stale[after.keys[id]] = true
-				}
-			}
-			continue
-		}
-		// removed (or replaced): does another host present afterwards have the address it had?
-		for id2, k2 := range after.keys {
-			if k2 == before.keys[id] && !(id2 == id && after.hosts[id2] == h) {
-				if id2 != id {
-					m.shadow[k2] = true
-				}
-			}
-		}
-	}
-}
-
-func newRingMon() *ringMon { return &ringMon{shadow: map[int64]bool{}, stale: map[int64]bool{}} }
-
-// finding: the known finding whose narrow trigger covers this violation ("" if none)
-func (m *ringMon) finding(v idxViolation) string {
-	if v.kind == "by-address-misses-live-host" && m.shadow[v.key] {
-		return findShadow
-	}
-	if (v.kind == "by-address-misses-live-host" || v.kind == "by-address-dangling") && m.stale[v.key] {
-		return findStale
-	}
-	return ""
-}
-
 func opText(op rop) string {
 	switch op.kind {
 	case 0:
@@ -448,7 +396,6 @@ func opText(op rop) string {
 
 func runRingHistory(o *hlib.Out, kind string, ops []rop) {
 	rg := gocql.VerifC16NewRing()
-	mon := newRingMon()
 	var steps []string
 	type pend struct {
 		v   idxViolation
@@ -465,7 +412,6 @@ func runRingHistory(o *hlib.Out, kind string, ops []rop) {
 		probeKeys = append(probeKeys, c)
 	}
 	for i, op := range ops {
-		before := snap(rg)
 		var opT, retT string
 		text = append(text, opText(op))
 		switch op.kind {
@@ -489,7 +435,6 @@ func runRingHistory(o *hlib.Out, kind string, ops []rop) {
 			opT = "ORemove " + hlib.Z(idCode(op.id))
 			retT = fmt.Sprintf("(RBool %s)", hlib.Bool(rg.Remove(op.id)))
 		}
-		mon.observe(before, snap(rg))
 		var found, ipp []string
 		for _, id := range probeIDs {
 			found = append(found, hlib.Bool(rg.GetHost(idStr(id)) != nil))
@@ -506,7 +451,7 @@ func runRingHistory(o *hlib.Out, kind string, ops []rop) {
 		steps = append(steps, fmt.Sprintf("RStep (%s) %s %s %s %s %s %s", opT, retT, ipsTerm(ips), listTerm(list), hlib.ZListI(probeIDs),
 			hlib.List(found), hlib.List(ipp)))
 		for _, v := range checkRingIndexes(rg) {
-			fid := mon.finding(v)
+			fid := ""
 			if !seen[v.kind+"/"+fid] {
 				seen[v.kind+"/"+fid] = true
 				pending = append(pending, pend{v, fid, i})
